@@ -587,6 +587,9 @@ func (ex *Exec) chooseN(n int, what string) int {
 	if n <= 1 {
 		return 0
 	}
+	if debugInstr {
+		fmt.Fprintf(os.Stderr, "chooseN %d %s at %s\n", n, what, describeStack(ex))
+	}
 	if ex.pos < len(ex.prefix) {
 		d := ex.prefix[ex.pos]
 		ex.pos++
@@ -609,7 +612,8 @@ func (ex *Exec) chooseN(n int, what string) int {
 
 // freshVar declares a new input variable.
 func (ex *Exec) freshVar(prefix string, bits int) *Term {
-	name := fmt.Sprintf("%s%d", prefix, ex.nvar)
+	// the sort is part of the name: the n-th input of one path may be a Bool and of another a bit-vector
+	name := fmt.Sprintf("%s%d_%d", prefix, ex.nvar, bits)
 	ex.nvar++
 	return ex.ts.Var(name, bits)
 }
